@@ -37,6 +37,9 @@ pub struct Spec {
     pub clips: [i32; 4],
     /// alphabet size (symbols 'A'.. for kinds 0/1, prefix of PROT for kind 2)
     pub sigma: usize,
+    /// false: `match_scores` stays None as after `Aligner::new` / `Scoring::new` (the banded aligner then builds
+    /// its band with the default match score)
+    pub ms_hint: bool,
 }
 
 impl Spec {
@@ -53,7 +56,7 @@ impl Spec {
             gap_open: self.open,
             gap_extend: self.ext,
             match_fn: move |a: u8, b: u8| mf.s(a, b),
-            match_scores: if mf.kind == 0 && mf.ms >= 0 && mf.mm <= 0 { Some((mf.ms, mf.mm)) } else { None },
+            match_scores: if self.ms_hint && mf.kind == 0 && mf.ms >= 0 && mf.mm <= 0 { Some((mf.ms, mf.mm)) } else { None },
             xclip_prefix: self.clips[0],
             xclip_suffix: self.clips[1],
             yclip_prefix: self.clips[2],
@@ -114,6 +117,7 @@ pub fn random_spec(rng: &mut Rng) -> Spec {
         ext,
         clips,
         sigma,
+        ms_hint: true,
     }
 }
 
